@@ -6,6 +6,8 @@ package main
 import (
 	"fmt"
 	"math/big"
+	"os"
+	"runtime/debug"
 	"reflect"
 	"sort"
 	"strconv"
@@ -27,6 +29,9 @@ func safe(f func()) (pan interface{}) {
 	defer func() {
 		if r := recover(); r != nil {
 			pan = r
+			if os.Getenv("VERIF_TRACE") != "" {
+				os.WriteFile("/verif/build/trace.txt", debug.Stack(), 0o644)
+			}
 		}
 	}()
 	f()
